@@ -201,25 +201,46 @@ PROPS = {
     "C18": dict(
         lean_targets=["SJ.Props.C18", "SJ.Audit.C18"],
         configs=dict(quick=["d"], thorough=["d", "po", "ap"]),
-        gen_keys=["pointer."],
-        rule="fixed index/escape corpus; every pointer of length <= 5 (thorough 6) over the alphabet /~01a- against a "
+        gen_keys=["pointer.", "index.", "partial_eq.", "jsonmacro."],
+        rule="pointer: fixed index/escape corpus; every pointer of length <= 5 (thorough 6) over the alphabet /~01a- against a "
              "document with every escape-relevant key; every existing path of random documents in RFC-order, "
-             "wrong-order and raw spellings, single-edit mutations and random pointers. A case is non-trivial when "
-             "the pointer has at least one reference token; distinct = distinct (document, pointer, op) lines.",
+             "wrong-order and raw spellings, single-edit mutations and random pointers (non-trivial: at least one reference "
+             "token). get/Index/IndexMut: every value kind x 20 probe forms (usize, &str, String, references to them, present / "
+             "missing / out-of-bounds / usize::MAX), then random documents probed with each of their keys, foreign keys and "
+             "positions around the length; IndexMut runs under catch_unwind (non-trivial: null, array or object receiver); "
+             "take through every kind of pointer. peq: ten integer types x boundary comparands (MIN, MAX, 0, +-1, 2^k+-1 for "
+             "k in 7..64) x 80 values (PosInt/NegInt/Float at every type boundary, strings, bools, null, containers), f64/f32 "
+             "comparands incl. NaN, +-0, +-inf, 2^53, 2^63, 2^64, bool, str/String; random value/comparand pairs that are equal, "
+             "adjacent, 2^64 apart or unrelated (default build only; non-trivial: number, string or bool value). json!: 20 fixed "
+             "and 2000 (thorough 20000) random token trees - depth <= 3, trailing commas, duplicate keys from a 3-key pool, "
+             "literal / bare-variable / parenthesised / char keys, interpolated variables of 16 Rust types and compound "
+             "expressions - written into a Rust program that is compiled against the tree under check and prints the macro's "
+             "value and from_str of the equivalent JSON text (non-trivial: at least one container). distinct = distinct lines.",
         trusted_base=[KERNEL, TIE,
-                      "str::split / str::replace / str::parse::<usize> / Vec::get / Map::get modelled by their documented semantics"],
-        assumptions=["Rust std string and slice primitives behave as documented",
-                     "json! macro expansion (rustc macro matcher) is exercised by correspondence only"],
-        partial=["Index/IndexMut/get/take, PartialEq with primitives and json! are not yet modelled (correspondence pending)"],
-        technique="Lean 4 theorem: model of Value::pointer/pointer_mut = RFC 6901 evaluator for all values and pointers; "
-                  "constants regenerated from source; differential run against the crate",
-        level_text="Machine-checked Lean 4 theorems (c18_pointer, c18_pointer_mut, c18_unescape, c18_parse_index) state that the "
-                   "transcription of Value::pointer / pointer_mut equals an RFC 6901 reference evaluator for every value and every "
-                   "pointer string. The replace chain, split character and parse_index guards are re-extracted from src/value/mod.rs "
-                   "on every run, and the model is run against the real crate on generated and exhaustive short pointers.",
-        level_note="Trusted: Lean kernel + propext/Classical.choice/Quot.sound; extract.py; the harness/driver comparison; std "
-                   "string primitives (split, replace, parse::<usize>) modelled by documented semantics. Not yet covered: "
-                   "Index/IndexMut/get/take, PartialEq with primitives, json! macro.",
+                      "str::split / str::replace / str::parse::<usize> / Vec::get / Map::get / Map::insert / Entry::or_insert / mem::replace modelled by their documented semantics",
+                      "Rust `as` casts (integer wrap-around, round-to-nearest-even to floats) and IEEE-754 `==` modelled by their language definition",
+                      "rustc's macro-by-example matcher (rule order, `$e:expr` taking one maximal expression, nonterminal look-ahead) modelled as described in Model/JsonMacro.lean; exercised by the generated program"],
+        assumptions=["Rust std string, slice and map primitives behave as documented",
+                     "an interpolated expression enters the json! model as the Value to_value(&e).unwrap() gives (to_value itself is C15)",
+                     "64-bit target (isize = i64, usize = u64)"],
+        partial=["c18_partial_eq / c18_partial_eq_float: default build only (arbitrary_precision accessors parse the literal text; not modelled, not run)",
+                 "c18_partial_eq_float is a transcription-level statement: the float clause is read as IEEE equality after one correctly rounded conversion (so json!(2^53+1) == 2^53 as f64 and json!(1e300) == f32::INFINITY hold); the integer, bool and string clauses are full strength",
+                 "c18_json_macro: for token trees that are JSON-shaped (Spec.JsonMacro.shape); what the rules do outside that shape (e.g. json!([,1]) == [1]) is modelled and run but not specified"],
+        technique="Lean 4 theorems: models of Value::pointer/pointer_mut/get/get_mut/Index/IndexMut/take, of PartialEq with primitives and of the "
+                  "json_internal! rules against independent reference definitions, for all inputs; constants, the partialeq_numeric! table and the macro "
+                  "rules regenerated from source; differential run against the crate incl. a generated, compiled json! program",
+        level_text="Machine-checked Lean 4 theorems: c18_pointer, c18_pointer_mut, c18_unescape, c18_parse_index (Value::pointer / pointer_mut = RFC 6901 "
+                   "reference evaluator for every value and pointer string); c18_get_index, c18_index_mut, c18_index_mut_reference, c18_take (get / "
+                   "get_mut / Index / IndexMut / take = direct container access, insert-if-missing-then-address with panics exactly on the documented "
+                   "cases, for every value and probe, both map configurations); c18_partial_eq (for every integer type row of the extracted "
+                   "partialeq_numeric! table and every in-range comparand, == is true iff the value is an integer Number holding exactly that integer; "
+                   "bool and strings likewise), c18_partial_eq_float, c18_partial_eq_nan; c18_json_macro (the json_internal! rules applied in source order "
+                   "to any JSON-shaped token tree build the value the equivalent JSON text parses to: arrays in order, last duplicate key wins) and "
+                   "c18_json_rules_tied (the rule list regenerated from src/macros.rs is the transcribed one). All models run against the real crate "
+                   "on generated cases every check, json! through a generated program compiled against the tree under check.",
+        level_note="Trusted: Lean kernel + propext/Classical.choice/Quot.sound; extract.py; the harness/driver comparison; std primitives, `as` casts and "
+                   "rustc's macro matcher modelled by documented semantics. Float comparands: the statement is IEEE equality after conversion (see partial). "
+                   "PartialEq clause not covered under arbitrary_precision. Observation (not a violation of the stated property): json!([,1]) compiles and equals [1].",
     ),
 }
 
